@@ -94,10 +94,112 @@ func c14(c *Ctx) {
 
 	isStmt := func(v *cfgx.Vertex, pred func(n ast.Node) bool) bool { return v.Node != nil && pred(v.Node) }
 
+	// ---------- M1 (snapshot loader): the member map is built in a local and stored into the channel literal
+	if unm != nil && unm.Body() != nil {
+		info := unm.Info()
+		locals := map[types.Object]bool{}
+		ast.Inspect(unm.Body(), func(n ast.Node) bool {
+			kv, ok := n.(*ast.KeyValueExpr)
+			if !ok {
+				return true
+			}
+			if kid, ok := kv.Key.(*ast.Ident); ok {
+				if fv, ok := info.Uses[kid].(*types.Var); ok && fv == f.fCNicks {
+					if vid, ok := ast.Unparen(kv.Value).(*ast.Ident); ok {
+						locals[astx.Obj(info, vid)] = true
+					}
+				}
+			}
+			return true
+		})
+		nIns := 0
+		ast.Inspect(unm.Body(), func(n ast.Node) bool {
+			as, ok := n.(*ast.AssignStmt)
+			if !ok || len(as.Lhs) != 1 || len(as.Rhs) != 1 {
+				return true
+			}
+			ie, ok := ast.Unparen(as.Lhs[0]).(*ast.IndexExpr)
+			if !ok {
+				return true
+			}
+			bid, ok := ast.Unparen(ie.X).(*ast.Ident)
+			if !ok || !locals[astx.Obj(info, bid)] {
+				return true
+			}
+			nIns++
+			okFresh := false
+			if u, ok := ast.Unparen(as.Rhs[0]).(*ast.UnaryExpr); ok && u.Op == token.AND {
+				switch x := ast.Unparen(u.X).(type) {
+				case *ast.CompositeLit:
+					okFresh = true
+				case *ast.Ident:
+					o := astx.Obj(info, x)
+					var inner ast.Node
+					ast.Inspect(unm.Body(), func(m ast.Node) bool {
+						switch l := m.(type) {
+						case *ast.RangeStmt:
+							if l.Body.Pos() <= as.Pos() && as.End() <= l.Body.End() {
+								inner = l.Body
+							}
+						case *ast.ForStmt:
+							if l.Body.Pos() <= as.Pos() && as.End() <= l.Body.End() {
+								inner = l.Body
+							}
+						}
+						return true
+					})
+					okFresh = o != nil && inner != nil && inner.Pos() <= o.Pos() && o.Pos() <= inner.End()
+				}
+			} else if call, ok := ast.Unparen(as.Rhs[0]).(*ast.CallExpr); ok && astx.Builtin(info, call) == "new" {
+				okFresh = true
+			}
+			r.Check(okFresh, "C14.M1", unm.Name(), "restored member entry "+astx.Str(ie.Index)+" is a fresh status array", c.P.Pos(as.Pos()), "&<array declared in the member loop>",
+				"the snapshot loader gives several members of a channel the same status array (declared outside the member loop): after a restore every member of a channel with an operator is an operator, and +o/-o on one changes all")
+			return true
+		})
+		r.Check(nIns >= 1, "C14.M1", unm.Name(), "restored member entries found (fresh status array)", c.P.Pos(unm.Node().Pos()), itoa(nIns), "the snapshot loader no longer builds the member map in a local stored as channel.nicks: shape not recognised")
+	}
 	// ---------- M1
 	for _, w := range c.stateMapWrites(f.fCNicks) {
 		fi := w.fi
 		if fi == unm {
+			// the snapshot loader: every member gets its own status array (allocated in the iteration that inserts it)
+			if w.delete || w.val == nil {
+				continue
+			}
+			info := fi.Info()
+			okFresh := false
+			if u, ok := ast.Unparen(w.val).(*ast.UnaryExpr); ok && u.Op == token.AND {
+				switch x := ast.Unparen(u.X).(type) {
+				case *ast.CompositeLit:
+					okFresh = true
+				case *ast.Ident:
+					// &local: the local must be declared inside the innermost loop around the insert
+					o := astx.Obj(info, x)
+					var loops []ast.Node
+					ast.Inspect(fi.Body(), func(n ast.Node) bool {
+						switch l := n.(type) {
+						case *ast.RangeStmt:
+							if l.Body.Pos() <= w.node.Pos() && w.node.End() <= l.Body.End() {
+								loops = append(loops, l.Body)
+							}
+						case *ast.ForStmt:
+							if l.Body.Pos() <= w.node.Pos() && w.node.End() <= l.Body.End() {
+								loops = append(loops, l.Body)
+							}
+						}
+						return true
+					})
+					if o != nil && len(loops) > 0 {
+						inner := loops[len(loops)-1]
+						okFresh = inner.Pos() <= o.Pos() && o.Pos() <= inner.End()
+					}
+				}
+			} else if call, ok := ast.Unparen(w.val).(*ast.CallExpr); ok && astx.Builtin(info, call) == "new" {
+				okFresh = true
+			}
+			r.Check(okFresh, "C14.M1", fi.Name(), "restored member entry "+astx.Str(w.key)+" is a fresh status array", c.P.Pos(w.node.Pos()), "&<array declared in the member loop>",
+				"the snapshot loader gives several members of a channel the same status array (declared outside the member loop): after a restore every member of a channel with an operator is an operator, and +o/-o on one changes all")
 			continue
 		}
 		info := fi.Info()
